@@ -332,6 +332,9 @@ def _duration_offsets(ctx):
     return n
 
 
+rule("C06.r", "a restriction built as a single row (first-step rows of the start / shutdown / ramp logic) couples its variables on every path: "
+              "when one coefficient is set unconditionally, a second one is not left to an if / elif chain without else - the row would pin one "
+              "variable to the right-hand side on the remaining path (equality rows only: in a 'U' / 'L' row a single coefficient is a bound)", floor=2)
 rule("C06.q", "the ramp limit of a step is the ramp rate times the step length, nothing else: the value handed to the ramp rows is built from "
               "self.ramp and the step length of the grid only - no further factor (a conversion between ramp_freq and the grid frequency re-reads "
               "`ramp` as 'per step of another frequency': with ramp_freq = 15 min on an hourly grid the output may change by 4 x ramp per step)", floor=1)
@@ -436,7 +439,7 @@ rule("C06.m", "an aggregated implication row (+1 on a slice of k boolean variabl
               "by the horizon", floor=1)
 
 
-@analysis("chp", ["C06.a", "C06.b", "C06.c", "C06.h", "C06.i", "C06.k", "C06.m", "C06.n", "C06.p", "C06.q"])
+@analysis("chp", ["C06.a", "C06.b", "C06.c", "C06.h", "C06.i", "C06.k", "C06.m", "C06.n", "C06.p", "C06.q", "C06.r"])
 def run(ctx):
     _ramp_factors(ctx)
     _shadowed_attrs(ctx)
@@ -687,3 +690,60 @@ def run(ctx):
                                bad[0][0] if bad else "", au.short(col.lower, 30), au.short(col.upper, 40), au.U(k), au.U(k)) if bad else
                            "the width of the slice could not be compared with the coefficient", node=st2)
     ctx.ob("C06.m", "package", "aggregated implication rows", True, ok_detail="%d row pattern(s) found" % n_m)
+
+
+    # ================================================================= C06.r a one-row restriction couples two variables on every path
+    n_rows = 0
+    for fn in sorted(p.all_functions(), key=lambda f: f.qualname):
+        if fn.cls is None or not p.is_subclass(fn.cls, "CHPAsset") or fn.parent is not None:
+            continue
+        for body, guards in au.stmt_lists(fn.body):
+            for i, st in enumerate(body):
+                if not (isinstance(st, ast.Assign) and isinstance(st.targets[0], ast.Name) and isinstance(st.value, ast.Call)
+                        and au.method_name(st.value) == "lil_matrix" and st.value.args and isinstance(st.value.args[0], ast.Tuple)
+                        and st.value.args[0].elts and au.const_num(st.value.args[0].elts[0]) == 1):
+                    continue
+                name = st.targets[0].id
+                sure, maybe = 0, 0
+                for s2 in body[i + 1:]:
+                    if isinstance(s2, ast.Assign) and isinstance(s2.targets[0], ast.Name) and s2.targets[0].id == name:
+                        break
+                    if isinstance(s2, ast.Assign) and isinstance(s2.targets[0], ast.Subscript) and au.base_name(s2.targets[0]) == name:
+                        sure += 1
+                    elif isinstance(s2, (ast.For, ast.While)) and any(isinstance(x, ast.Assign) and isinstance(x.targets[0], ast.Subscript)
+                                                                       and au.base_name(x.targets[0]) == name for x in au.walk_stmts(s2.body)):
+                        sure += 1   # a loop over steps fills further coefficients
+                    elif isinstance(s2, ast.If):
+                        arms, cur, complete = [], s2, False
+                        while True:
+                            arms.append(cur.body)
+                            if len(cur.orelse) == 1 and isinstance(cur.orelse[0], ast.If):
+                                cur = cur.orelse[0]
+                                continue
+                            if cur.orelse:
+                                arms.append(cur.orelse)
+                                complete = True
+                            break
+                        stores = [any(isinstance(x, ast.Assign) and isinstance(x.targets[0], ast.Subscript) and au.base_name(x.targets[0]) == name
+                                      for x in au.walk_stmts(a)) for a in arms]
+                        if any(stores):
+                            if complete and all(stores):
+                                sure += 1
+                            else:
+                                maybe += 1
+                if sure + maybe == 0:
+                    continue
+                # only equality rows: a single coefficient in a 'U' / 'L' row is a bound, in an 'S' row it pins the variable
+                letter = None
+                for s2 in body[i + 1:]:
+                    if isinstance(s2, ast.AugAssign) and isinstance(s2.target, ast.Attribute) and s2.target.attr == "cType":
+                        letter = au.const_str(s2.value)
+                        break
+                if letter != "S":
+                    continue
+                n_rows += 1
+                ctx.ob("C06.r", fn, "one-row restriction %s (line offset %d in its block)" % (name, i), sure >= 2 or maybe == 0,
+                       "the row %s gets one coefficient for certain and a second one only on some paths (if / elif without else): on the remaining path "
+                       "the row fixes a single variable - e.g. on[0] = 1 for a plant that has run its minimum time and may well be off in the first "
+                       "step (plant forced on: value 897 instead of 997)" % name, node=st, trivial=(maybe == 0))
+    ctx.require(n_rows >= 2, "fewer than 2 one-row equality restrictions found in the CHP classes", rules=["C06.r"])
